@@ -69,3 +69,33 @@ Example C07_example_perm_dup :
   | _, _ => false
   end = true.
 Proof. vm_compute. reflexivity. Qed.
+
+(* ---- the model of Python == on type metadata is the implementation's sorted comparison (Model/PyStr.v, Model/Merge.v py_eq;
+   tied by X-pyeq, tools/validate_pyeq.py).  It is ORDER SENSITIVE on raw dicts with one key set: samples that are equal under
+   Python == but differ in JSON type (1 / 1.0 / true) make such unions arrive in different member orders.  The theorems above
+   hold for this exact relation: the shortcut "equal -> keep the old type" and the general branch "unite the members" give
+   results that are equal up to order either way. ---- *)
+From J2M.Model Require Import PyStr.
+From J2M.Proofs Require Import Sound.
+
+Theorem C07_py_eq_is_sorted_comparison :
+  forall (peq : N -> N -> bool) (xs ys : list ty),
+       py_eq peq (TUnion xs) (TUnion ys) = true <->
+       Forall2 (fun x y : ty => py_eq peq x y = true) (ssort xs) (ssort ys).
+Proof. exact Sound.py_eq_union_sorted. Qed.
+
+Theorem C07_py_eq_order_sensitive :
+  py_eq N.eqb (TUnion (TObj ((97%N :: nil, TBool) :: nil) :: TObj ((97%N :: nil, TInt) :: nil) :: nil))
+         (TUnion (TObj ((97%N :: nil, TInt) :: nil) :: TObj ((97%N :: nil, TBool) :: nil) :: nil)) = false /\
+       py_eq N.eqb (TUnion (TObj ((97%N :: nil, TBool) :: nil) :: TObj ((97%N :: nil, TInt) :: nil) :: nil))
+         (TUnion (TObj ((97%N :: nil, TBool) :: nil) :: TObj ((97%N :: nil, TInt) :: nil) :: nil)) = true.
+Proof. exact Sound.py_eq_order_sensitive. Qed.
+
+Theorem C07_py_eq_order_free :
+  py_eq N.eqb (TUnion (TInt :: TList TStr :: nil)) (TUnion (TList TStr :: TInt :: nil)) = true /\
+       py_eq N.eqb
+         (TUnion (TObj ((97%N :: nil, TBool) :: nil) :: TInt :: TObj ((98%N :: nil, TBool) :: nil) :: nil))
+         (TUnion (TObj ((98%N :: nil, TBool) :: nil) :: TObj ((97%N :: nil, TBool) :: nil) :: TInt :: nil)) =
+       true.
+Proof. exact Sound.py_eq_order_free. Qed.
+
